@@ -215,6 +215,10 @@ fn status_check(sim: &Sim, who: &str, want: &StatusSpec, got: &Status) {
         sim.violation("C04/status-roundtrip-details-differ", format!("{who}: written {}B, read back {}B", want.details.len(), got.details().len()));
     }
     check_md_received(sim, who, &want.md, got.metadata());
+    if let Some(d) = gen::md_mismatch(&want.md, got.metadata()) {
+        v2(sim, "status-metadata-differs", format!("{who}: metadata the handler attached to its error status did not all reach the caller: {d}"));
+        sim.violation("C04/status-roundtrip-metadata-differs", format!("{who}: status metadata written and read back differs: {d}"));
+    }
 }
 
 /// Fault-free oracle: identity channel.
@@ -243,6 +247,9 @@ pub fn judge<M: SimMsg>(sim: &Sim, plan: &CallPlan, obs: &Observed, log: Option<
             }
             if let Some(md) = &l.md {
                 check_md_received(sim, &format!("{who} (request metadata at handler)"), &plan.req_md, md);
+                if let Some(d) = gen::md_mismatch(&plan.req_md, md) {
+                    v2(sim, "request-metadata-differs", format!("{who}: request metadata at the handler: {d}"));
+                }
             }
         }
     }
@@ -256,6 +263,9 @@ pub fn judge<M: SimMsg>(sim: &Sim, plan: &CallPlan, obs: &Observed, log: Option<
                 }
                 if let Some(md) = &obs.head_md {
                     check_md_received(sim, &format!("{who} (response metadata at caller)"), &s.initial_md, md);
+                    if let Some(d) = gen::md_mismatch(&s.initial_md, md) {
+                        v2(sim, "response-metadata-differs", format!("{who}: response metadata at the caller: {d}"));
+                    }
                 }
             }
             (None, Some(e), _) => v2(sim, "success-reported-as-error", format!("{who}: handler succeeded, caller sees {:?} {:?}", e.code(), e.message())),
@@ -286,6 +296,9 @@ pub fn judge<M: SimMsg>(sim: &Sim, plan: &CallPlan, obs: &Observed, log: Option<
     }
     if let Some(md) = &obs.head_md {
         check_md_received(sim, &format!("{who} (response metadata at caller)"), &s.initial_md, md);
+        if let Some(d) = gen::md_mismatch(&s.initial_md, md) {
+            v2(sim, "response-metadata-differs", format!("{who}: response metadata at the caller: {d}"));
+        }
     }
     if obs.items != want_msgs {
         v2(
